@@ -50,6 +50,8 @@ TraceSpec == TraceInit /\ [][TraceNext]_tvars
 \* record clauses evaluated on the observed fields
 RecordCarriesOldState == \A k \in 1..Len(xrecs) :
     /\ <<xrecs[k].d, xrecs[k].s, xrecs[k].u, xrecs[k].a>> = xrecs[k].pre
+    \* (the deprecated field "consumption" is another name for the allocation)
+    /\ xrecs[k].c = xrecs[k].pre[4]
     /\ xrecs[k].late = <<xrecs[k].value, xrecs[k].d, xrecs[k].s, xrecs[k].u, xrecs[k].a>>
 RecordBeforeWrite == \A k \in 1..Len(xrecs) : xrecs[k].emitd = xrecs[k].pre[1]
 OnConfiguredLoggerAndLevel == \A k \in 1..Len(xrecs) : xrecs[k].nameok /\ xrecs[k].levelok
